@@ -89,12 +89,17 @@ EXTRA_TRUSTED = [
     "the accuracy tolerances 2.5 % / 15 % / MAC 0.999 are validated by search on the real code, not proved",
     "C07Bell: the SVD enters as recorded (stored vector = non-zero multiple of a mode's shape, stored value = square root of its weight); "
     "that LAPACK returns this for a structured spectrum away from ties is validated by the structured-spectrum oracle",
+    "C07All.C07_scale_all: contracts of the library routines as hypotheses (ScaleContract: svd(c A) = (U, c S), sqrt(c s) = r sqrt(s), r^2 = c; "
+    "inverse FFT homogeneous for positive factors - proved for the modelled transform); jointly satisfiable (example over the reals); "
+    "the floating-point routines honour them to rounding only (oracle scale-variance-* at 1e-9)",
 ]
 ASSUMPTIONS = [
     "exact ties between correlation samples and exact zeros in the normalised correlation are outside the compared domain",
     "oracle domain as in the property: fn/fs in [0.04,0.25], xi in [2,5] %, >=4 lines per half-power bandwidth, >=30 periods in the half record, DF2 in [4,8] bandwidths, DF1 = max(2 lines, one bandwidth)",
     "structured-spectrum oracle: FSDD values are asserted for real mode shapes only (the domain of C07); for complex shapes the code's "
     "phi^H Sy phi pairs without conjugation (C07_bell_structured_coded, C07_fsdd_complex_shape_witness) - deviations are counted, not reported",
+    "composed stream: cases with a correlation sample within 1e-13 of zero in the half record, or a bell of fewer than 3 lines (undamped periodic "
+    "correlation, extrema tie to rounding) are skipped and counted; Efdd.efddMpe returns 'outside-model' for a NaN first-stage shape / zero correlation",
 ]
 
 
